@@ -17,8 +17,8 @@ for _name, _params in (("check_resume", {}),
              props=["C15", "C13", "C05"], trusted=True,
              trusted_reason=FRAME_REASON, frame_check=True,
              self_shape="NestedSampler", params=_params,
-             modifies=(["self.proposal"] if _name == "check_resume"
-                       else []))
+             modifies=(["self.proposal", "self.resumed"]
+                       if _name == "check_resume" else []))
 contract(SB, "BaseNestedSampler.close_pool", props=["C15", "C13", "C05"],
          trusted=True, trusted_reason=FRAME_REASON, frame_check=True,
          self_shape="NestedSampler", params={"code": "Any"},
